@@ -7,6 +7,7 @@ import CGV.DriverJson
 import CGV.Gen.Funcs
 import CGV.Model.Sample
 import CGV.Model.ReadCG
+import CGV.Model.Write
 open Lean CGV CGV.J
 
 def openOf' (j : Json) : Except String OpenSt :=
@@ -75,6 +76,21 @@ def handle (j : Json) : Except String Json := do
     let d ← (← j.getObjVal? "dialect").getStr?
     match (if d == "base" then parseBase t else parseFrag t) with
     | .ok a => pure (Json.mkObj [("ok", attrsTo a)])
+    | .error e => pure (errTo e)
+  | "write" =>
+    let smiles ← boolOf (← j.getObjVal? "smiles")
+    let nodes ← listOf (fun x => do
+      let a ← arr x
+      let name ← ofStr a[1]!
+      pure ({ key := ← natOf a[0]!, text := if smiles then name else ['[', '#'] ++ name ++ [']'],
+              bonding := ← listOf ofStr a[2]!, aromatic := ← boolOf a[3]! } : WNode)) (← j.getObjVal? "nodes")
+    let edges ← listOf (fun x => do
+      let a ← arr x
+      pure (⟨← natOf a[0]!, ← natOf a[1]!, ← natOf a[2]!⟩ : WEdge)) (← j.getObjVal? "edges")
+    let succ ← listOf (pairOf natOf (listOf natOf)) (← j.getObjVal? "succ")
+    let ring ← listOf (pairOf natOf natOf) (← j.getObjVal? "ring")
+    match writeGraph ⟨nodes, edges, succ, ring, smiles⟩ with
+    | .ok t => pure (Json.mkObj [("ok", str t)])
     | .error e => pure (errTo e)
   | "sample" =>
     let frags ← fragsOf (← j.getObjVal? "frags")
